@@ -152,6 +152,17 @@ def incr_form(e):
     return None
 
 
+def _sizeof_covers(ta, tb):
+    """the lower-precision sibling sizes a block with a type at least as large as the counterpart of the other one's type
+    (sizeof(double) where sizeof(singlecomplex) / sizeof(float) is meant): an over-allocation, not a divergence in behaviour"""
+    from .extent import SIZES
+    low = {'doublecomplex': 'singlecomplex', 'double': 'float'}
+    for x, y in ((ta, tb), (tb, ta)):
+        if x in low and y in SIZES and all(p >= q for p, q in zip(SIZES[y], SIZES[low[x]])):
+            return True
+    return False
+
+
 class Comparer(object):
     def __init__(self, fa, fb, letters, known_names, twin=False, subst_a=None, subst_b=None):
         self.fa, self.fb = fa, fb
@@ -520,7 +531,7 @@ class Comparer(object):
             self.expr(a.c[0], b.c[0], in_message)
         elif k == 'Sizeof':
             ta, tb = norm_type(a.a.get('argtype'), 0, 0), norm_type(b.a.get('argtype'), 0, 0)
-            if ta != tb:
+            if ta != tb and not _sizeof_covers(a.a.get('argtype'), b.a.get('argtype')):
                 self.fail(a, b, 'different sizeof type (%s vs %s)' % (a.a.get('argtype'), b.a.get('argtype')))
             for x, y in zip(a.c, b.c):
                 self.expr(x, y, in_message)
